@@ -744,7 +744,19 @@ class Facts:
         self.path = path
         self._baseline_arg = baseline
         with open(path) as f:
-            lines = f.read().split('\n')
+            text = f.read()
+        if 'BTree' in text:
+            # ordered and hashed std maps / sets are one abstraction for every rule (keyed lookup, membership, insertion);
+            # the only difference, iteration order, is never relied on by a rule (R05.4 is an inventory): an ordered
+            # container is read under the name of its hashed sibling
+            for a_, b_ in (('std::collections::BTreeMap', 'std::collections::HashMap'),
+                           ('std::collections::BTreeSet', 'std::collections::HashSet'),
+                           ('std::collections::btree_map::', 'std::collections::hash_map::'),
+                           ('std::collections::btree_set::', 'std::collections::hash_set::'),
+                           ('alloc::collections::btree::map::', 'std::collections::hash_map::'),
+                           ('alloc::collections::btree::set::', 'std::collections::hash_set::')):
+                text = text.replace(a_, b_)
+        lines = text.split('\n')
         self.header = json.loads(lines[0])
         self._raw = {}
         self.order = []
@@ -770,6 +782,18 @@ class Facts:
             _os.path.abspath(__file__)), 'baseline_items.txt')) if baseline is None else []
         install_relocations(self.relocations + self.canon.renamed_types() + self.trait_renames)
         self.canon.apply_header(self.header)
+        # private single-field wrapper structs that do not exist on the reference tree (typed ids, fixed-point weights,
+        # degrees-of-freedom newtypes ...) are transparent: normalised path -> type of the wrapped field
+        self.new_newtypes = {}
+        if baseline is None and self.canon.reference:
+            for a in self.header['adts']:
+                p_ = norm(a['path'])
+                if a.get('kind') == 'Struct' and len(a.get('variants', [])) == 1 and \
+                        len(a['variants'][0].get('fields', [])) == 1 and a['path'] not in self.canon.adt_pairs and \
+                        p_ not in self.canon.adt_pairs and a['path'] not in self.canon.reference and \
+                        p_ not in self.canon.reference and not p_.startswith('examples') and 'python' not in p_ and \
+                        not p_.rsplit('::', 1)[-1].startswith('Py'):
+                    self.new_newtypes[p_] = a['variants'][0]['fields'][0].get('ty', '?')
         self.norm_index = defaultdict(list)
         for p in self._raw:
             self.norm_index[norm(p)].append(p)
